@@ -153,89 +153,86 @@ NAIVE_NEGACYCLIC = ("torusPolynomialMultNaive_aux",)     # R = A*B mod X^N+1 on 
 
 
 def check_wrapper(chk, v, name, op):
-    """every control path of a Karatsuba entry point (paths = guard alternatives, e.g. a small-N shortcut with an early
-    return) leaves result (op) poly1*poly2 mod X^N+1"""
+    """A Karatsuba entry point leaves result (op) poly1*poly2 mod X^N+1.  The function's effect tree is interpreted for
+    N in 1..9 (sa/concrete.py) with linear abstract values: the product call leaves coefficient u of the 2N-1 coefficient
+    product, P_u, in its output array (the schoolbook kernel, which already reduces, leaves P_u - P_{N+u}); copies, sums and
+    differences are tracked through scratch buffers and helpers; at the end coefficient i of result must be
+    [old result[i]] (op) (P_i - P_{N+i}), with P_{2N-1} = 0.  Independent of how the reduction is written (in place, through
+    a scratch array, one loop or two, a peeled last coefficient, a small-N shortcut)."""
+    from sa import concrete
+    from sa.pipeline import AnalysisBroken
     f = v.fn(name)
-    ps, _ = summ.pieces(v, f, hooks=NOINLINE)
+    ps, eff = summ.pieces(v, f, hooks=NOINLINE)
     res, p1, p2 = [p["n"] for p in f.params[:3]]
     N = P(p1, "N")
+    RES = sym.sym(res)
     key = "%s reduces the 2N-1 coefficient product mod X^N+1 with '%s'" % (name, op)
-    groups = {}
-    for p in ps:
-        if p["kind"] == "call" and p["name"] in ("Karatsuba_aux",) + NAIVE_NEGACYCLIC or \
-                (p["kind"] == "store" and sym.root_of(p["lv"]) == sym.sym(res)):
-            groups.setdefault(tuple(p["guards"]), []).append(p)
-    problems = []
-    oks = []
-    if not any(p["kind"] == "call" and p["name"] == "Karatsuba_aux" for g in groups.values() for p in g):
+    if not any(p["kind"] == "call" and p["name"] == "Karatsuba_aux" for p in ps):
         chk.broken("%s: expected a Karatsuba_aux call" % name)
-    for gk, gps in sorted(groups.items(), key=lambda kv: repr(kv[0])):
-        under = (" under %s" % [sym.show(x) for x in gk]) if gk else ""
-        calls = [p for p in gps if p["kind"] == "call"]
-        stores = [p for p in gps if p["kind"] == "store"]
-        if len(calls) != 1:
-            chk.broken("%s: %d product calls on the path%s" % (name, len(calls), under))
-        a = calls[0]["args"]
-        Rt = a[0]
-        if a[1] != P(p1, "coefs") or a[2] != P(p2, "coefsT") or a[3] != N:
-            problems.append("%s called on (%s, %s, %s)%s" % (calls[0]["name"], sym.show(a[1]), sym.show(a[2]), sym.show(a[3]), under))
-            continue
-        if calls[0]["name"] in NAIVE_NEGACYCLIC:
-            # already reduced: either written straight into result ('=') or combined coefficient by coefficient over [0,N)
-            if Rt == P(res, "coefsT"):
-                if op != "=" or stores:
-                    problems.append("the schoolbook product overwrites result%s where '%s' is expected" % (under, op))
+    problems = []
+    used = set()
+    sizes = (1, 2, 3, 4, 5, 8, 9)
+    for nv in sizes:
+        if problems:
+            break
+        env = {N: nv, P(p2, "N"): nv, P(res, "N"): nv}
+        mem = concrete.LinearMemory()
+
+        def handler(kind, x, env):
+            if kind == "cond":
+                return None
+            if kind == "store":
+                form = concrete.linear_eval(x["val"], env, mem)
+                if form is None:
+                    raise AnalysisBroken("%s: value %s at line %s is not a sum of array elements" % (name, sym.show(x["val"])[:80], x["l"]))
+                mem.store(concrete.lvalue_location(x["lv"], env), x["op"], form)
+                return
+            if kind != "call":
+                return
+            nm, a = x["name"], x["args"]
+            if nm in ("Karatsuba_aux",) + NAIVE_NEGACYCLIC:
+                used.add(nm)
+                if a[1] != P(p1, "coefs") or a[2] != P(p2, "coefsT") or concrete.eval_term(a[3], env) != nv:
+                    problems.append("%s called on (%s, %s, %s) at line %s: not the two operands with their length N" % (
+                        nm, sym.show(a[1]), sym.show(a[2]), sym.show(a[3]), x["l"]))
+                    return
+                out = concrete.location(a[0], env)
+                if nm == "Karatsuba_aux":
+                    for u in range(2 * nv - 1):
+                        mem.write(mem.shift(out, u), {("P", u): 1})
                 else:
-                    oks.append("schoolbook product written to result%s" % under)
-                continue
-            terms = []
-            for st in stores:
-                if len(st["loops"]) != 1 or st["op"] != op:
-                    problems.append("statement '%s %s %s'%s: expected result[i] %s T[i]" % (sym.show(st["lv"]), st["op"], sym.show(st["val"])[:60], under, op))
-                    continue
-                lp = st["loops"][0]
-                if st["lv"][0] != "idx" or st["lv"][1] != P(res, "coefsT") or st["val"] != sym.idx(Rt, st["lv"][2]):
-                    problems.append("statement '%s %s %s'%s does not combine equal positions" % (sym.show(st["lv"]), st["op"], sym.show(st["val"])[:60], under))
-                    continue
-                terms.append((lp, st["lv"][2], 1))
-            if terms:
-                from sa import coverage
-                status, detail = coverage.cover_1d(terms, N)
-                if status == "unknown":
-                    chk.broken("%s: %s" % (name, detail))
-                if status == "refuted":
-                    problems.append("shortcut path%s: result[i] %s T[i] does not reach every coefficient: %s" % (under, op, detail))
-                else:
-                    oks.append("schoolbook shortcut%s combines [0,N)" % under)
-            elif not problems:
-                problems.append("the schoolbook product on the path%s is never combined into result" % under)
-            continue
-        loop_st = [p for p in stores if p["loops"]]
-        top_st = [p for p in stores if not p["loops"]]
-        if len(loop_st) != 1 or len(top_st) != 1:
-            chk.broken("%s: reduction after Karatsuba_aux%s not recognised (%d loop statements, %d single statements)" % (
-                name, under, len(loop_st), len(top_st)))
-        lp = loop_st[0]["loops"][0]
-        i = lp["var"]
-        want_val = sym.sub(sym.idx(Rt, i), sym.idx(Rt, sym.add(N, i)))
-        if (lp["lo"], lp["cmp"], lp["hi"]) != (ZERO, "<", sym.sub(N, I(1))):
-            problems.append("reduction loop covers [%s %s %s), expected [0 < N-1)" % (sym.show(lp["lo"]), lp["cmp"], sym.show(lp["hi"])))
-        if loop_st[0]["lv"] != sym.idx(P(res, "coefsT"), i) or loop_st[0]["op"] != op or loop_st[0]["val"] != want_val:
-            problems.append("loop statement is '%s %s %s', expected 'result[i] %s R[i] - R[N+i]'" % (
-                sym.show(loop_st[0]["lv"]), loop_st[0]["op"], sym.show(loop_st[0]["val"]), op))
-        t = top_st[0]
-        top = sym.sub(N, I(1))
-        if t["lv"] != sym.idx(P(res, "coefsT"), top) or t["op"] != op or t["val"] != sym.idx(Rt, top):
-            problems.append("top statement is '%s %s %s', expected 'result[N-1] %s R[N-1]'" % (
-                sym.show(t["lv"]), t["op"], sym.show(t["val"]), op))
-        oks.append("result[i] %s R[i] - R[N+i] for i < N-1 and result[N-1] %s R[N-1]%s" % (op, op, under))
-    # the guard alternatives must be exhaustive: a single unguarded path, or g / !g
-    gks = [g for g in groups]
-    if len(gks) > 1:
-        if not (len(gks) == 2 and all(len(g) == 1 for g in gks) and (gks[0][0] == sym.unop("!", gks[1][0]) or gks[1][0] == sym.unop("!", gks[0][0]))):
-            chk.broken("%s: path alternatives %s not recognised as complementary" % (name, [[sym.show(x) for x in g] for g in gks]))
-    chk.require(not problems, "R3", key, where=f.where, ok="; ".join(oks)[:300],
-                bad="; ".join(problems)[:400], variant=v.name)
+                    for u in range(nv):
+                        mem.write(mem.shift(out, u), concrete.lin_add({("P", u): 1}, {("P", nv + u): 1} if u < nv - 1 else {}, -1))
+            elif x.get("noreturn") or nm.startswith(("new_", "delete_")) or nm in ("free", "malloc"):
+                return
+            else:
+                raise AnalysisBroken("%s: call to %s (line %s) has no abstract meaning here" % (name, nm, x["l"]))
+        try:
+            concrete.interpret(eff, env, handler)
+        except concrete.NotEvaluable as e:
+            raise AnalysisBroken("%s: %s" % (name, e))
+        for i in range(nv):
+            loc = (RES, (0, "coefsT", i))
+            got = mem.read(loc)
+            prod = concrete.lin_add({("P", i): 1}, {("P", nv + i): 1} if i < nv - 1 else {}, -1)
+            old = {("init", loc): 1}
+            want = prod if op == "=" else concrete.lin_add(old, prod, 1 if op == "+=" else -1)
+            if got != want:
+                def show(fm):
+                    if not fm:
+                        return "0"
+                    parts = []
+                    for k_, c_ in sorted(fm.items(), key=repr):
+                        nm_ = "old result[%d]" % k_[1][1][-1] if k_ and k_[0] == "init" and k_[1][0] == RES else \
+                            ("P_%d" % k_[1] if k_ and k_[0] == "P" else "uninitialised %s" % sym.show(k_[1][0])[:30] if k_ and k_[0] == "init" else str(k_)[:40])
+                        parts.append("%+d*%s" % (c_, nm_))
+                    return " ".join(parts)
+                problems.append("for N = %d: result[%d] ends as %s, expected %s (P_u = coefficient u of the 2N-1 coefficient product)" % (
+                    nv, i, show(got), show(want)))
+                break
+    chk.require(not problems, "R3", key, where=f.where,
+                ok="result[i] %s P_i - P_{N+i} (P_{2N-1} = 0) for every i < N; interpreted for N in %s through %s" % (op, list(sizes), sorted(used)),
+                bad="; ".join(problems)[:500], variant=v.name)
     chk.vcount(v.name, "R3.karatsuba_wrappers")
 
 
